@@ -8,6 +8,10 @@ ids = [p["id"] for p in props]
 
 # id -> (engine, technique, level text, level note, design ref)
 CHECKS = {
+ "C19": ("E5", "bounded-exhaustive enumeration: all token sequences / short byte strings for totality of scanner, parser and evaluator; all well-typed paths to a depth bound generated from the message descriptors, evaluated on populated messages against a reference protoreflect walker; byte renderings against field bytes",
+         "(i) every sequence of <=4 (thorough 5) tokens over a 23-token alphabet and every byte string of length <=3 (4) over 16 bytes is parsed and, if it parses, evaluated, under panic guard and a progress watchdog; (ii) every well-typed path with <=3 (4) field accesses generated from the descriptors of testmessage.Test and VMGoldenMeasurement - each field, list indices in and out of range, present and absent map keys of all six key kinds in several literal spellings, implicit and explicit root, wrongly typed key literals - is parsed and evaluated on messages populated with distinct values at every node, and the result is compared with walking the message through protoreflect; (iii) raw/hex/base64/auto renderings of 11 bytes fields and the raw payload/signature are compared with the exact bytes.",
+         "Trusted: protoreflect as the reference walker; hand-built protopath values with a wrongly typed map key are outside the statement (it quantifies over textual paths).",
+         "DESIGN.md#c19"),
  "C17": ("E5", "bounded-exhaustive full product of base policies x endorsements x configurations x flags on the real SevPolicy/TdxPolicy, against a reference derivation and a deep snapshot of the base",
          "49 endorsements (measurement tables, CA bundles of 0-3 PEM blocks, wrong PEM type, trailing garbage, SVN values, no SEV section) x 73 base policies (nil and every combination of guest policy / measurement / minimum SVN / trusted keys set equal, different or unset, with six unrelated fields set) x VMSA counts {0,1,2,9} x overwrite x allow-unspecified (57k derivations), and for TDX 5 base policies x 3 row sets x RAM {0,16,64} x overwrite: the base must be bit-identical to its snapshot and not aliased, set values survive without overwrite or the call fails, placed values are the endorsement's, trusted keys are base + bundle in order, unrelated fields are untouched.",
          "Trusted: protobuf Equal/Clone; values outside the enumerated menus behave alike (comparisons are equality / ordering on scalars).",
